@@ -39,6 +39,8 @@ class SchedWorld(JobWorld, BuildWorld):
         self.lock_log = []
         self.fresh_capture = None
         self.server_state = None
+        self.script_declares = None     # {target name: source name}
+        self.child_target_name = {}
         self.select_budget = 0
 
     # ---- time: in this exploration a blocking call takes exactly as long as it was asked to (a concrete clock); the symbolic
@@ -74,6 +76,10 @@ class SchedWorld(JobWorld, BuildWorld):
         if cap is not None:
             self.child_capture[pid] = cap
         self.children[-1]['job_kind'] = kind
+        pt = self.__dict__.get('pending_target')
+        if pt is not None:
+            import os.path
+            self.child_target_name[pid] = tuple(os.path.normpath(pt).encode('latin-1'))
         self.log[-1][1]['job_kind'] = kind
         self.effect('fork', pid=pid, job_kind=kind)
         return r
@@ -84,6 +90,33 @@ class SchedWorld(JobWorld, BuildWorld):
         if cap is not None and self.script_writes_stdout:
             cap.data['size'] = 5
             cap.data['pos'] = 5
+        if cap is not None and self.script_declares:
+            self.script_declares_effect(c)
+
+    def script_declares_effect(self, c):
+        """`redo-ifchange <source>` in the script: what ifchange::run commits for a source file - the edge, and the source's row
+        with its current stamp (changed in this run if the stamp is new); the same summary as in C10's crash exploration"""
+        tname = self.child_target_name.get(c['pid'])
+        src = self.script_declares.get(tname) if isinstance(self.script_declares, dict) else None
+        if not src:
+            return
+        tid = [k for k, r in self.files.items() if tuple(r['name']) == tuple(tname)]
+        if not tid:
+            return
+        sid = [k for k, r in self.files.items() if tuple(r['name']) == tuple(src)]
+        if not sid:
+            sid = [self.next_rowid]
+            self.next_rowid += 1
+            self.add_file(sid[0], src, is_generated=False, is_override=False)
+        row = self.files[sid[0]]
+        st = self.fs_stamp(tuple(src))
+        if row.get('stamp') is None or tuple(row['stamp']) != tuple(st or b'0'):
+            row['stamp'] = tuple(st) if st is not None else tuple(b'0')
+            row['changed_runid'] = self.runid
+        self.deps[(tid[0], sid[0])] = {'mode': tuple(b'm'), 'delete_me': 0}
+        self.ev('script-declares', target=bytes(tname).decode(), source=bytes(src).decode())
+        if self.db_committed is not None and not self.in_tx:
+            self.db_committed = self.snap_db()
 
     # ---- fcntl byte-range locks
     def fcntl(self, eng, fd, arg, sp):
@@ -178,7 +211,7 @@ def rp(name):
 
 
 def setup(eng, targets, keep_going=False, top_level=2, pipe0=1, others0=0, runid=10, should_build=None, max_wakeups=10,
-          prior=None, other_locks=None, sub_target=None, shuffle=False, no_do=(), race=(), deps=(), free_at_try=None, cycles=()):
+          prior=None, other_locks=None, sub_target=None, shuffle=False, no_do=(), race=(), deps=(), free_at_try=None, cycles=(), default_do=False):
     """-> (world, server cell, root future = the real builder::run coroutine)"""
     w = SchedWorld(eng, runid, pipe0, others0, adv_budget=(1 if top_level == 0 else 0), allow_steal=(top_level == 0),
                    max_wakeups=max_wakeups)
@@ -195,6 +228,8 @@ def setup(eng, targets, keep_going=False, top_level=2, pipe0=1, others0=0, runid
             w.fs[tuple(tn + b'.do')] = tuple(S1)
         w.fs.setdefault(tuple(tn), None)
     ids = {}
+    if default_do:
+        w.fs[tuple(b'default.do')] = tuple(S1)
     for name, (cells, fs_t) in (prior or {}).items():
         w.add_file(rid, name, **cells)
         ids[name] = rid
@@ -228,6 +263,15 @@ def setup(eng, targets, keep_going=False, top_level=2, pipe0=1, others0=0, runid
             w.other_locks[fid[0]] = {'outcome': 'never', 'name': name, 'race': False, 'free_at_try': None}
         w.envmap['REDO_CYCLES'] = [ord(c) for c in ':'.join(str(x) for x in cyc)]
     w.db_committed = w.snap_db()
+    return (w,) + new_run(eng, w, targets, runid, keep_going=keep_going, shuffle=shuffle, sub_target=sub_target, top_level=top_level,
+                          should_build=should_build, pipe0=pipe0, others0=others0)
+
+
+def new_run(eng, w, targets, runid, keep_going=False, shuffle=False, sub_target=None, top_level=0, should_build=None, pipe0=None,
+            others0=None):
+    """a (further) invocation of the command on the world as it is: fresh Env / ProcessState / JobServer, same database, filesystem
+    and pipes -> (server cell, root future)"""
+    w.runid = runid
     envover = dict(keep_going=keep_going, shuffle=shuffle, log=0)
     if sub_target is not None:
         envover['target'] = rp(sub_target)
@@ -245,5 +289,6 @@ def setup(eng, targets, keep_going=False, top_level=2, pipe0=1, others0=0, runid
             return ok(Struct('()', [True, Enum('Dirtiness', 'Dirty')]))
         should_build = PyCallable(sb, 'should_build')
     root = eng.call('builder::run', [psr, href, tvec, should_build], None, None)
-    w.q0 = pipe0 + others0 + 1
-    return w, sref, root
+    if pipe0 is not None:
+        w.q0 = pipe0 + others0 + 1
+    return sref, root
